@@ -14,6 +14,8 @@ pub fn kgen() -> Vec<NB> {
     .iter()
     .map(|k| NB::new(if k.is_empty() { "<empty>" } else { k }, k.as_bytes()))
     .chain([NB::new("key55", &[b'k'; 55]), NB::new("key56", &[b'k'; 56]), NB::new("key-nonascii", &[0xff, 0x00, 0x80])])
+    // one-byte keys at and above 0x80 (their RLP encoding needs a header, unlike "a"), and 0x00 / 0x7f
+    .chain([NB::new("key-1byte-80", &[0x80]), NB::new("key-1byte-c3", &[0xc3]), NB::new("key-1byte-ff", &[0xff]), NB::new("key-1byte-00", &[0x00]), NB::new("key-1byte-7f", &[0x7f])])
     // look-alikes of reserved keys: ordinary custom keys for every rule
     .chain(["i", "ip4", "tcp66", "udp4", "ID", "secp256k", "secp256k11", "ed2551", "client2"].iter().map(|k| NB::new(k, k.as_bytes())))
     // keys in use in the wild, none of them typed by EIP-778
